@@ -245,7 +245,11 @@ def run_check(pid, tier, seed, workers=None, budget=None):
     cfg = TIERS[tier]
     budget = float(os.environ.get("VERIF_BUDGET", budget or getattr(prop, "BUDGET", {}).get(tier, cfg["budget"])))
     workers = int(os.environ.get("VERIF_WORKERS", workers or os.cpu_count() or 4))
-    max_runs = int(os.environ.get("VERIF_MAX_RUNS", cfg["max_runs"]))
+    # quick tier: a fixed number of runs per seed (same runs whatever the machine load), the wall
+    # budget is only a safety cap; thorough tier: as many runs as the wall budget allows
+    max_runs = int(os.environ.get("VERIF_MAX_RUNS", getattr(prop, "RUNS", {}).get(tier, cfg["max_runs"])))
+    if "VERIF_BUDGET" not in os.environ and tier == "quick" and hasattr(prop, "RUNS"):
+        budget = max(budget, 150.0)
     ctx = mp.get_context("fork")
     wires = []
     harness = []
